@@ -1,72 +1,166 @@
-(* C03 property theorems: statements only. *)
+(* C03 property theorems: statements only.
+   `run` is the code (assertions live on levels, checked level by level while the model is walked);
+   `gate` is the specification (one flat list of inequalities evaluated on the numbers).
+   Guards of the `_partial` theorems (each is refuted without its guard in Witness.v):
+     levels_wf     every assertion sits on a level of the model
+     ldef          every assertion can be evaluated on the vector (operands are parameters of the
+                   model, no division by zero)
+     constructible the model's own arithmetic is defined on the vector *)
 From Coq Require Import List String Bool.
 From PAFC01 Require Import ModelTree.
-From PAFC03 Require Import Model Proofs.
+From PAFC03 Require Import Model Proofs Proofs2 Proofs3.
 Import ListNotations.
+
+(* ANY NESTING LEVEL (induction on the tree): checking each level's assertions while walking down, with
+   ignore_assertions handed to every child, raises the fit exception exactly when some inequality of the
+   flat list is false *)
+Theorem C03_levels_flat_partial : forall (V : Type) (bin : binop -> V -> V -> V) (bin_ok : binop -> V -> V -> bool)
+    (ltb leb : V -> V -> bool) (of_bool : bool -> V) (args : nat -> option V) (n : node V) (lv : levels V),
+  levels_wf V lv n ->
+  ldef V bin bin_ok ltb leb of_bool args lv ->
+  status V bin bin_ok ltb leb of_bool args true lv n = Ok tt ->
+  status V bin bin_ok ltb leb of_bool args false lv n =
+  if all_hold V bin bin_ok ltb leb of_bool args (flat V lv) then Ok tt else Fit.
+Proof. exact status_flat. Qed.
+
+(* ignore_assertions=True reaches every level: no level's assertions matter *)
+Theorem C03_ignore_reaches_every_level : forall (V : Type) (bin : binop -> V -> V -> V) (bin_ok : binop -> V -> V -> bool)
+    (ltb leb : V -> V -> bool) (of_bool : bool -> V) (args : nat -> option V) (n : node V) (lv lv' : levels V),
+  status V bin bin_ok ltb leb of_bool args true lv n = status V bin bin_ok ltb leb of_bool args true lv' n.
+Proof. exact status_ignore_levels. Qed.
+
+(* the code is the specification, for both values of ignore_prior_limits *)
+Theorem C03_run_is_gate_partial : forall (V : Type) (bin : binop -> V -> V -> V) (bin_ok : binop -> V -> V -> bool)
+    (ltb leb : V -> V -> bool) (of_bool : bool -> V)
+    (ignore : bool) (lims : list (limit V)) (lv : levels V) (n : node V) (vec : list V),
+  levels_wf V lv n ->
+  ldef V bin bin_ok ltb leb of_bool (vec_args V n vec) lv ->
+  constructible V bin bin_ok ltb leb of_bool n vec ->
+  run V bin bin_ok ltb leb of_bool ignore lims lv n vec = gate V bin bin_ok ltb leb of_bool ignore lims (flat V lv) n vec.
+Proof. exact run_is_gate. Qed.
 
 (* an instance is produced iff every value is inside its prior's limits and every assertion of
    every level is true of the values; the instance is then the C01 instance *)
-Theorem C03_gate_iff : forall (V : Type) (bin : binop -> V -> V -> V) (ltb leb : V -> V -> bool)
-    (lims : list (limit V)) (asserts : list (assertion V)) (n : node V) (vec : list V) (i : ival V),
-  gate V bin ltb leb false lims asserts n vec = VOk i <->
-  List.length vec = prior_count V n /\ within V leb lims (vec_args V n vec) = true /\
-  all_hold V bin ltb leb (vec_args V n vec) asserts = true /\ i = inst V bin (vec_args V n vec) n.
-Proof. exact gate_ok_iff. Qed.
+Theorem C03_gate_iff_partial : forall (V : Type) (bin : binop -> V -> V -> V) (bin_ok : binop -> V -> V -> bool)
+    (ltb leb : V -> V -> bool) (of_bool : bool -> V)
+    (lims : list (limit V)) (lv : levels V) (n : node V) (vec : list V) (i : ival V),
+  levels_wf V lv n ->
+  ldef V bin bin_ok ltb leb of_bool (vec_args V n vec) lv ->
+  constructible V bin bin_ok ltb leb of_bool n vec ->
+  (run V bin bin_ok ltb leb of_bool false lims lv n vec = VOk i <->
+   List.length vec = prior_count V n /\ within V leb lims (vec_args V n vec) = true /\
+   all_hold V bin bin_ok ltb leb of_bool (vec_args V n vec) (flat V lv) = true /\ i = inst V bin (vec_args V n vec) n).
+Proof. exact run_ok_iff. Qed.
 
+(* otherwise the fit exception (limit exception first, else assertion failure) *)
+Theorem C03_rejects_partial : forall (V : Type) (bin : binop -> V -> V -> V) (bin_ok : binop -> V -> V -> bool)
+    (ltb leb : V -> V -> bool) (of_bool : bool -> V)
+    (lims : list (limit V)) (lv : levels V) (n : node V) (vec : list V),
+  levels_wf V lv n ->
+  ldef V bin bin_ok ltb leb of_bool (vec_args V n vec) lv ->
+  constructible V bin bin_ok ltb leb of_bool n vec ->
+  List.length vec = prior_count V n ->
+  (within V leb lims (vec_args V n vec) = false -> run V bin bin_ok ltb leb of_bool false lims lv n vec = VLimit) /\
+  (within V leb lims (vec_args V n vec) = true ->
+   all_hold V bin bin_ok ltb leb of_bool (vec_args V n vec) (flat V lv) = false ->
+   run V bin bin_ok ltb leb of_bool false lims lv n vec = VAssert).
+Proof. exact run_rejects. Qed.
+
+(* a value outside its limits: the limit exception, unconditionally (limits are looked at first) *)
+Theorem C03_limit_first : forall (V : Type) (bin : binop -> V -> V -> V) (bin_ok : binop -> V -> V -> bool)
+    (ltb leb : V -> V -> bool) (of_bool : bool -> V)
+    (lims : list (limit V)) (lv : levels V) (n : node V) (vec : list V),
+  List.length vec = prior_count V n -> within V leb lims (vec_args V n vec) = false ->
+  run V bin bin_ok ltb leb of_bool false lims lv n vec = VLimit.
+Proof. exact run_limit_first. Qed.
+
+(* when the caller ignores limits/assertions an instance is always produced (if it can be constructed at all) *)
+Theorem C03_ignore_total_partial : forall (V : Type) (bin : binop -> V -> V -> V) (bin_ok : binop -> V -> V -> bool)
+    (ltb leb : V -> V -> bool) (of_bool : bool -> V)
+    (lims : list (limit V)) (lv : levels V) (n : node V) (vec : list V),
+  List.length vec = prior_count V n -> constructible V bin bin_ok ltb leb of_bool n vec ->
+  run V bin bin_ok ltb leb of_bool true lims lv n vec = VOk (inst V bin (vec_args V n vec) n).
+Proof. exact run_ignore_total. Qed.
+
+(* ... and that instance is complete: no parameter is left without a value anywhere in it (for the shapes the walk
+   covers: tuple members are priors or constants, no bare tuple inside a collection) *)
+Theorem C03_constructed_complete : forall (V : Type) (bin : binop -> V -> V -> V) (bin_ok : binop -> V -> V -> bool)
+    (ltb leb : V -> V -> bool) (of_bool : bool -> V) (args : nat -> option V) (n : node V) (lv : levels V),
+  covered V n = true ->
+  status V bin bin_ok ltb leb of_bool args true lv n = Ok tt ->
+  no_missing V (inst V bin args n) = true.
+Proof. exact constructed_no_missing. Qed.
+
+(* limits: `within` is the inequality lo <= v <= hi for every listed parameter, and speaks about every
+   entry of the vector when limits are listed for every parameter *)
 Theorem C03_limits_direct : forall (V : Type) (leb : V -> V -> bool) (lims : list (limit V)) (args : nat -> option V),
   within V leb lims args = true <->
   forall q lo hi v, In (q, (lo, hi)) lims -> args q = Some v -> leb lo v = true /\ leb v hi = true.
 Proof. exact within_spec. Qed.
 
-Theorem C03_assertions_direct : forall (V : Type) (bin : binop -> V -> V -> V) (ltb leb : V -> V -> bool)
-    (asserts : list (assertion V)) (args : nat -> option V),
-  all_hold V bin ltb leb args asserts = true <-> forall a, In a asserts -> holds V bin ltb leb args a = Some true.
+Theorem C03_limits_cover : forall (V : Type) (leb : V -> V -> bool) (lims : list (limit V)) (ids : list nat) (args : nat -> option V),
+  covers V lims ids -> within V leb lims args = true ->
+  forall q v, In q ids -> args q = Some v -> exists lo hi, In (q, (lo, hi)) lims /\ leb lo v = true /\ leb v hi = true.
+Proof. exact within_covers. Qed.
+
+Theorem C03_assertions_direct : forall (V : Type) (bin : binop -> V -> V -> V) (bin_ok : binop -> V -> V -> bool)
+    (ltb leb : V -> V -> bool) (of_bool : bool -> V) (asserts : list (assertion V)) (args : nat -> option V),
+  all_hold V bin bin_ok ltb leb of_bool args asserts = true <->
+  forall a, In a asserts -> holds V bin bin_ok ltb leb of_bool args a = Ok true.
 Proof. exact all_hold_spec. Qed.
 
 (* the verdict of an inequality is the inequality evaluated on the numbers (operands may be
    parameters, constants or arithmetic expressions) *)
-Theorem C03_verdict_lt : forall (V : Type) (bin : binop -> V -> V -> V) (ltb leb : V -> V -> bool)
-    (args : nat -> option V) (l g : node V),
-  holds V bin ltb leb args (ALt l g) = Some true <->
-  exists x y, operand V bin args l = Some x /\ operand V bin args g = Some y /\ ltb x y = true.
+Theorem C03_verdict_lt : forall (V : Type) (bin : binop -> V -> V -> V) (bin_ok : binop -> V -> V -> bool)
+    (ltb leb : V -> V -> bool) (of_bool : bool -> V) (args : nat -> option V) (l g : node V),
+  holds V bin bin_ok ltb leb of_bool args (ALt l g) = Ok true <->
+  exists x y, operand V bin bin_ok args l = Ok x /\ operand V bin bin_ok args g = Ok y /\ ltb x y = true.
 Proof. exact holds_lt. Qed.
 
-Theorem C03_verdict_le : forall (V : Type) (bin : binop -> V -> V -> V) (ltb leb : V -> V -> bool)
-    (args : nat -> option V) (l g : node V),
-  holds V bin ltb leb args (ALe l g) = Some true <->
-  exists x y, operand V bin args l = Some x /\ operand V bin args g = Some y /\ leb x y = true.
+Theorem C03_verdict_le : forall (V : Type) (bin : binop -> V -> V -> V) (bin_ok : binop -> V -> V -> bool)
+    (ltb leb : V -> V -> bool) (of_bool : bool -> V) (args : nat -> option V) (l g : node V),
+  holds V bin bin_ok ltb leb of_bool args (ALe l g) = Ok true <->
+  exists x y, operand V bin bin_ok args l = Ok x /\ operand V bin bin_ok args g = Ok y /\ leb x y = true.
 Proof. exact holds_le. Qed.
 
-(* chained assertions: (a < b) < c is a < b and b < c; (a < b) > c is a < b and c < a *)
-Theorem C03_chain_lt : forall (V : Type) (bin : binop -> V -> V -> V) (ltb leb : V -> V -> bool)
-    (args : nat -> option V) (a b c : node V) (t : assertion V),
-  chain_lt V (ALt a b) c = Some t ->
-  (holds V bin ltb leb args t = Some true <->
-   holds V bin ltb leb args (ALt a b) = Some true /\ holds V bin ltb leb args (ALt b c) = Some true).
-Proof. exact chain_lt_spec. Qed.
+(* what the operators build: x op y (either side may be the constant: reflected operators) means the
+   inequality, for all four operators *)
+Theorem C03_operator_builds : forall (V : Type) (bin : binop -> V -> V -> V) (bin_ok : binop -> V -> V -> bool)
+    (ltb leb : V -> V -> bool) (of_bool : bool -> V) (args : nat -> option V) (op : cmpop) (x y : node V) (t : assertion V),
+  arith_like V x || arith_like V y = true ->
+  cmp_nodes V ltb leb op x y = Some t ->
+  (holds V bin bin_ok ltb leb of_bool args t = Ok true <->
+   exists a b, operand V bin bin_ok args x = Ok a /\ operand V bin bin_ok args y = Ok b /\ cmp_consts V ltb leb op a b = true).
+Proof. exact cmp_nodes_spec. Qed.
 
-Theorem C03_chain_gt : forall (V : Type) (bin : binop -> V -> V -> V) (ltb leb : V -> V -> bool)
-    (args : nat -> option V) (a b c : node V) (t : assertion V),
-  chain_gt V (ALt a b) c = Some t ->
-  (holds V bin ltb leb args t = Some true <->
-   holds V bin ltb leb args (ALt a b) = Some true /\ holds V bin ltb leb args (ALt c a) = Some true).
-Proof. exact chain_gt_spec. Qed.
+(* two-link chains: (a ? b) op c is a ? b and pivot op c; pivot = greater operand of the first link for
+   < / <=, its lower operand for > / >= *)
+Theorem C03_chain2 : forall (V : Type) (bin : binop -> V -> V -> V) (bin_ok : binop -> V -> V -> bool)
+    (ltb leb : V -> V -> bool) (of_bool : bool -> V)
+    (args : nat -> option V) (first : assertion V) (op : cmpop) (p c : node V) (t : assertion V),
+  pivot_of V first op = Some p ->
+  arith_like V p || arith_like V c = true ->
+  chain V ltb leb first op c = Some t ->
+  (holds V bin bin_ok ltb leb of_bool args t = Ok true <->
+   holds V bin bin_ok ltb leb of_bool args first = Ok true /\
+   exists a b, operand V bin bin_ok args p = Ok a /\ operand V bin bin_ok args c = Ok b /\ cmp_consts V ltb leb op a b = true).
+Proof. exact chain2_spec. Qed.
 
-(* otherwise the fit exception (limit exception first, else assertion failure) *)
-Theorem C03_rejects : forall (V : Type) (bin : binop -> V -> V -> V) (ltb leb : V -> V -> bool)
-    (lims : list (limit V)) (asserts : list (assertion V)) (n : node V) (vec : list V),
-  List.length vec = prior_count V n ->
-  (within V leb lims (vec_args V n vec) = false -> gate V bin ltb leb false lims asserts n vec = VLimit) /\
-  (within V leb lims (vec_args V n vec) = true -> all_hold V bin ltb leb (vec_args V n vec) asserts = false ->
-     gate V bin ltb leb false lims asserts n vec = VAssert).
-Proof. exact gate_rejects. Qed.
+(* ABOUT THE CODE VARIANT of proposed_fixes/C03-chain-further (not the current code, whose three-link chains are
+   refuted in Witness.C03_chain3_refuted): once every assertion object knows the lowest and the greatest operand
+   of its chain, comparing a chain of any length again adds exactly the one inequality written *)
+Theorem C03_chain_further_fixed_variant : forall (V : Type) (bin : binop -> V -> V -> V) (bin_ok : binop -> V -> V -> bool)
+    (ltb leb : V -> V -> bool) (of_bool : bool -> V)
+    (args : nat -> option V) (first : assertion V) (e e' : node V * node V) (op : cmpop) (c : node V) (t : assertion V),
+  let p := match op with CLt | CLe => snd e | CGt | CGe => fst e end in
+  arith_like V p || arith_like V c = true ->
+  chain_fixed V ltb leb first e op c = Some (t, e') ->
+  (holds V bin bin_ok ltb leb of_bool args t = Ok true <->
+   holds V bin bin_ok ltb leb of_bool args first = Ok true /\
+   exists a b, operand V bin bin_ok args p = Ok a /\ operand V bin bin_ok args c = Ok b /\ cmp_consts V ltb leb op a b = true) /\
+  e' = match op with CLt | CLe => (fst e, c) | CGt | CGe => (c, snd e) end.
+Proof. exact chain_fixed_spec. Qed.
 
-(* when the caller ignores limits/assertions an instance is always produced *)
-Theorem C03_ignore_total : forall (V : Type) (bin : binop -> V -> V -> V) (ltb leb : V -> V -> bool)
-    (lims : list (limit V)) (asserts : list (assertion V)) (n : node V) (vec : list V),
-  List.length vec = prior_count V n ->
-  gate V bin ltb leb true lims asserts n vec = VOk (inst V bin (vec_args V n vec) n).
-Proof. exact gate_ignore_total. Qed.
-
-Print Assumptions C03_gate_iff.
-Print Assumptions C03_rejects.
+Print Assumptions C03_levels_flat_partial.
+Print Assumptions C03_run_is_gate_partial.
+Print Assumptions C03_chain2.
